@@ -674,6 +674,16 @@ class Program:
     def resolve_callee(self, fi: FunctionInfo, call: ast.Call, _depth: int = 0) -> str | None:
         """Dotted name of what is called: internal function/class qualname, or external dotted
         name (``asyncio.shield``, ``contextvars.ContextVar.set``), else None."""
+        key = (fi.qualname, id(call))
+        memo = self.__dict__.setdefault("_callee_memo", {})
+        if key in memo and getattr(call, "_parent", None) is not None:
+            return memo[key]
+        r = self._resolve_callee(fi, call, _depth)
+        if _depth == 0 and getattr(call, "_parent", None) is not None:
+            memo[key] = r
+        return r
+
+    def _resolve_callee(self, fi: FunctionInfo, call: ast.Call, _depth: int = 0) -> str | None:
         f = call.func
         if isinstance(f, ast.Subscript):  # ContextVar[T](...)
             f = f.value
